@@ -79,6 +79,28 @@ def run(prog, rep, tier='quick', config='default'):
                       detail='a transaction can be skipped by the cost tracker without being listed as ignored')
     else:
         rep.ok('R17b', 'skipped-transactions-are-listed', fn=ps.name, where=nc.where(), detail='every iteration either records a cost or pushes an "ignored" note')
+    # R17e: nothing is recorded for a transaction that may still be skipped (state updates come after the filters)
+    if entry is not None and notes:
+        early = []
+        for c in ps.calls:
+            if c.bb not in body or c.bb in notes or '$crate::event' in c.exp:
+                continue
+            a0 = c.arg_local(0)
+            if a0 is None or not ps.ty.get(a0, '').startswith('&mut'):
+                continue
+            if c.short not in ('insert', 'push', 'entry', 'get_mut', 'remove', 'extend') and c.callee != ob.name:
+                continue
+            if re.search(r'Vec<std::string::String>', ps.ty.get(a0, '')):
+                continue
+            # can a note (= a skip) still follow within this iteration?
+            if any(ps.reaches(c.bb, nb, avoid={header}) for nb in notes):
+                early.append(c)
+        if early:
+            rep.violation('R17e', 'nothing-recorded-before-the-skip-filters', where=early[0].where(), fn=ps.name,
+                          detail='%s records state for a transaction that can still be skipped as "ignored" afterwards: figures of other / registered affiliates '
+                                 'would leak into the table (e.g. an opening cost base of 0 taken from another affiliate\'s row)' % short(early[0].callee))
+        else:
+            rep.ok('R17e', 'nothing-recorded-before-the-skip-filters', fn=ps.name, detail='every state update of the pass lies after both skip filters')
     # the two skip conditions: no cost base (registered) and non-default affiliate
     conds = set()
     for nb in notes:
